@@ -459,3 +459,5 @@ REG.contract(
     requires=[_orb_requires], modifies=[f"{CTX}.dicts"], raises={"Any": None},
     ensures={"inner_component_gets_exactly_the_dynamic_components_inputs_and_its_output_is_the_output": _orb_post},
 )
+
+import contracts.c01b  # noqa: E402,F401  (SlotNode.render)
